@@ -1852,6 +1852,13 @@ void ReadModifyWriteHazardLogicBuilder::build(bool useMemory)
 	if (m_readPorts.empty()) return;
 	if (m_writePorts.empty()) return;
 
+	// The conflict flags come out of reset as "no conflict": nothing has been written yet, and an undefined flag would mask the
+	// (reset) values of the read port's own registers until the pipeline has filled.
+	sim::DefaultBitVectorState noConflict;
+	noConflict.resize(1);
+	noConflict.setRange(sim::DefaultConfig::DEFINED, 0, 1);
+	noConflict.clearRange(sim::DefaultConfig::VALUE, 0, 1);
+
 
 	size_t totalDataWidth = getOutputWidth(m_readPorts.front().dataOutOutputDriver);
 	for (auto &rdPort : m_readPorts)
@@ -1987,7 +1994,7 @@ void ReadModifyWriteHazardLogicBuilder::build(bool useMemory)
 			// If using m_retimeToMux and useMemory, then we skip the last set of registers, put them after the read ports, and set the memory to write-first
 			if ((stageIdx+1 < rdPortAddrShiftReg.size()) || !(m_retimeToMux && useMemory))
 				for (auto wordIdx : utils::Range(dataWords.size())) {
-					wordSignals[wordIdx].conflict = createRegister(wordSignals[wordIdx].conflict, {}, rdPort.enableInputDriver);
+					wordSignals[wordIdx].conflict = createRegister(wordSignals[wordIdx].conflict, noConflict, rdPort.enableInputDriver);
 					wordSignals[wordIdx].overrideData = createRegister(wordSignals[wordIdx].overrideData, {}, rdPort.enableInputDriver);
 					wordSignals[wordIdx].overrideWpIdx = createRegister(wordSignals[wordIdx].overrideWpIdx, {}, rdPort.enableInputDriver);
 				}
@@ -2053,7 +2060,7 @@ void ReadModifyWriteHazardLogicBuilder::build(bool useMemory)
 
 			// If using m_retimeToMux and useMemory, then we put the last set of registers here explicitely
 			if (m_retimeToMux && useMemory) {
-				conflict = createRegister(conflict, {}, rdPort.enableInputDriver);
+				conflict = createRegister(conflict, noConflict, rdPort.enableInputDriver);
 				overrideData = createRegister(overrideData, {}, rdPort.enableInputDriver);
 			}
 
